@@ -116,7 +116,14 @@ func c06Keyfunc(c *core.Ctx, rule, cons string, f *flow.Func, parse *ast.CallExp
 	c.Count("functions_analysed", 1)
 	tokenObj := kf.Info.Defs[kf.Type.Params.List[0].Names[0]]
 	tokenSet := map[types.Object]bool{tokenObj: true}
-	defs := c06SingleDefs(kf, kf.Body)
+	// the key function together with the same-package helpers it delegates to
+	gs := reach(kf, 2)
+	defs := map[types.Object]ast.Expr{}
+	for _, g := range gs {
+		for o, d := range c06DefsOf(g) {
+			defs[o] = d
+		}
+	}
 	for o, d := range outerDefs {
 		if _, dup := defs[o]; !dup {
 			defs[o] = d
@@ -132,13 +139,50 @@ func c06Keyfunc(c *core.Ctx, rule, cons string, f *flow.Func, parse *ast.CallExp
 		m, ok := kf.Callee(call).(*types.Func)
 		return ok && m.Name() == "Alg" && c06IsJWTPkg(m.Pkg()) && c06Mentions(kf, call, tokenSet)
 	}
-	// role: "configured algorithm" = string field of a module struct, not derived from the token
+	// role: "configured algorithm" = string field of a module struct, not derived from the
+	// token — or a helper's parameter that is handed such a field
+	cfgObjs := map[types.Object]bool{}
 	isCfg := func(e ast.Expr) bool {
-		return c06ModuleStringField(kf, c06Resolve(kf, defs, e), tokenSet)
+		r := c06Resolve(kf, defs, e)
+		if o := c06Obj(kf, r); o != nil && cfgObjs[o] {
+			return true
+		}
+		return c06ModuleStringField(kf, r, tokenSet)
+	}
+	// the token and the configured algorithm handed on to helpers: their parameters play the same role
+	for round := 0; round < 2; round++ {
+		for _, g := range gs {
+			for _, call := range calls(g.Body, true) {
+				fo, ok := kf.Callee(call).(*types.Func)
+				if !ok || fo.Pkg() != kf.Pkg.Types {
+					continue
+				}
+				fd := declOf(kf.Pkg, fo)
+				if fd == nil || fd.Type.Params == nil {
+					continue
+				}
+				idx := 0
+				for _, fld := range fd.Type.Params.List {
+					for _, nm := range fld.Names {
+						if idx < len(call.Args) {
+							po := kf.Info.Defs[nm]
+							if _, assigned := defs[po]; po != nil && !assigned {
+								if ao := c06Obj(kf, call.Args[idx]); ao != nil && tokenSet[ao] {
+									tokenSet[po] = true
+								} else if isCfg(call.Args[idx]) {
+									cfgObjs[po] = true
+								}
+							}
+						}
+						idx++
+					}
+				}
+			}
+		}
 	}
 	// collect the equality atoms alg == configured
 	keys := map[string]bool{}
-	ast.Inspect(kf.Body, func(n ast.Node) bool {
+	visitKeys := func(n ast.Node) bool {
 		switch x := n.(type) {
 		case *ast.BinaryExpr:
 			if x.Op.String() == "==" || x.Op.String() == "!=" {
@@ -158,8 +202,11 @@ func c06Keyfunc(c *core.Ctx, rule, cons string, f *flow.Func, parse *ast.CallExp
 			}
 		}
 		return true
-	})
-	res := analyze(c, kf, flow.Config{NoHavoc: true, OnNode: func(st *flow.State, n ast.Node) { c06TrackNonNil(kf, st, n) }})
+	}
+	for _, g := range gs {
+		ast.Inspect(g.Body, visitKeys)
+	}
+	res := analyze(c, kf, flow.Config{NoHavoc: true, Inline: inlineSamePkg(kf), OnNode: func(st *flow.State, n ast.Node) { c06TrackNonNil(kf, st, n) }})
 	if res == nil {
 		return
 	}
@@ -171,6 +218,9 @@ func c06Keyfunc(c *core.Ctx, rule, cons string, f *flow.Func, parse *ast.CallExp
 			continue
 		}
 		rs := c06Results(kf, ex)
+		if r := ex.Ret(); r != nil && r != ex.Return && len(r.Results) == 2 {
+			rs = r.Results // `return helper(..)`: the helper's own return lists the values
+		}
 		if len(rs) != 2 {
 			c.Undecide(rule, cons, pos(c, ex.At), "a return of the key function does not list (key, error)")
 			return
@@ -231,8 +281,23 @@ func c06ObjOrSel(f *flow.Func, e ast.Expr) types.Object {
 func c06ParseVerdict(c *core.Ctx, rule, name string, f *flow.Func, parse *ast.CallExpr) {
 	cons := name + "|accept only with the parser's verdict"
 	fd, ok := f.Node.(*ast.FuncDecl)
-	if !ok || fd.Type.Results == nil || len(fd.Type.Results.List) != 1 {
-		c.Undecide(rule, cons, pos(c, parse), "the function calling the jwt parser does not return a single error")
+	errIdx, nres := -1, 0
+	if ok && fd.Type.Results != nil {
+		for _, fld := range fd.Type.Results.List {
+			n := len(fld.Names)
+			if n == 0 {
+				n = 1
+			}
+			for i := 0; i < n; i++ {
+				if tv, ok := f.Info.Types[fld.Type]; ok && tv.Type != nil && isErrorTypeC06(tv.Type) {
+					errIdx = nres
+				}
+				nres++
+			}
+		}
+	}
+	if errIdx < 0 {
+		c.Undecide(rule, cons, pos(c, parse), "the function calling the jwt parser does not return an error")
 		return
 	}
 	strict := name == fname(c06val, "JWTValidator", "Validate")
@@ -315,7 +380,7 @@ func c06ParseVerdict(c *core.Ctx, rule, name string, f *flow.Func, parse *ast.Ca
 			continue
 		}
 		rs := c06Results(f, ex)
-		if len(rs) != 1 {
+		if len(rs) != nres {
 			c.Undecide(rule, cons, pos(c, ex.At), "a return without an explicit result")
 			return
 		}
@@ -323,7 +388,7 @@ func c06ParseVerdict(c *core.Ctx, rule, name string, f *flow.Func, parse *ast.Ca
 		if bad != nil {
 			continue
 		}
-		r := rs[0]
+		r := rs[errIdx]
 		st := ex.State
 		parsed := st.Is("ev:parsed", flow.True)
 		if errObjs[c06Obj(f, r)] && parsed && st.Is("ev:errfresh", flow.True) {
